@@ -589,4 +589,52 @@ def flattenLocal (fc : Facts) (x : Ext) (o : Opts) (fuel : Nat) (s : St) : Outco
   let s5 ← stripPointersAndOAIGen fc x o fuel s4
   if o.removeUnused then removeUnused fc x s5 else pure s5
 
+/-! ### normal forms: nothing left to do -/
+
+/-- no `$ref` carries the absolute path of the root document (`normalizeRef` selects nothing) -/
+def nfNormalize (o : Opts) (s : St) : Bool :=
+  (allRefs s.idx).all fun kv => !Str.hasPrefix (o.basePath ++ "#/definitions") kv.2
+
+/-- every schema `$ref` is local (`importReferences` finds nothing to import) -/
+def nfLocal (s : St) : Bool := (refMap (· = "schema") s.idx).all fun kv => hasFragmentOnly kv.2
+
+/-- the loop body of `nameInlinedSchemas` does nothing at this key: a `$ref`, a top-level definition,
+    or a schema that is not complex -/
+def nameStepIdle (fc : Facts) (x : Ext) (d : J) (entries : List (String × Bool × J)) (key : String) : Bool :=
+  match (entries.filter fun e => e.1 = key).getLast? with
+  | none => true
+  | some e =>
+    let node := liveNode d key e.2.2
+    if Doc.refStr node ≠ "" ∨ e.2.1 then true
+    else match Classify.classify fc (classifyExt x) d classifyFuel [] node with
+      | .ok fl => !Classify.isComplex fl
+      | _ => false
+
+/-- no complex schema is inline (`nameInlinedSchemas` selects nothing) -/
+def nfNaming (fc : Facts) (x : Ext) (s : St) : Bool :=
+  (SortRef.depthFirst ((Index.mapOf (Index.schemas s.idx)).map (·.1))).all
+    (nameStepIdle fc x s.doc (schemaEntries s.idx))
+
+/-- every `$ref` is of the form `#/definitions/<name>` and designates something in the document
+    (`namePointers` plans nothing) -/
+def nfPointers (x : Ext) (s : St) : Bool :=
+  (allRefs s.idx).all fun kv =>
+    Str.dir kv.2 = "#/definitions" &&
+    (match x.refTokens kv.2 with
+     | some toks => (Spec.Pointer.get s.doc toks).isSome
+     | none => false)
+
+/-- the shared sections are absent -/
+def nfShared (d : J) : Bool := (d.get? "parameters").isNone && (d.get? "responses").isNone
+
+/-- every definition is designated by a schema `$ref` (a removal pass removes nothing) -/
+def nfUnused (fc : Facts) (x : Ext) (d : J) : Bool :=
+  !(RemoveUnused.singlePass fc { refName := refName x } d).2
+
+/-- the normal form of Minimal / full flattening (with or without RemoveUnused), as the phases see it -/
+def isNF (fc : Facts) (x : Ext) (o : Opts) (d : J) : Bool :=
+  let s := initial fc d
+  nfNormalize o s && nfLocal s && (o.minimal || o.expand || nfNaming fc x s) && nfPointers x s &&
+  (!o.removeUnused || (nfShared d && nfUnused fc x d))
+
 end Flatten
